@@ -30,8 +30,23 @@ CHECKS = {
             'matching are solver queries over symbolic keys and ids.', '6 C16', GRAPH_NOTE),
 }
 
+SCHED_TEXT = {
+    'C02': 'ForwardScheduler.calc executed symbolically over all hierarchy/link placements within the bound; for every leaf with unfixed start the start day and all reserved days are compared with the days on which own and inherited prerequisites (expanded to leaves) end, project start, min_start and clock day; milestone placement is a solver query.',
+    'C03': 'Both schedulers, both balance settings: every usage row positive (solver), on the named resource, on a day with capacity (independent capacity table); per-day sums vs capacity are solver queries over symbolic units; reserved()/rows() views and default resources checked.',
+    'C04': 'Sum of reserved units == max(estimate - spent, 0) with defaults decided by the solver for symbolic estimate/spent; row days vs start/end dates; fixed dates returned unchanged.',
+    'C06': 'Snapshot of the input WBS before/after calc (also when calc raises); structural comparison of the result; calc repeated on the same and a fresh scheduler; relational two-clock query: two runs under different symbolic clocks <= project start give equal dates and rows (solver).',
+    'C07': 'start <= end and summary/WBS roll-ups asserted symbolically for every task of every explored schedule, forward and backward, project start at any microsecond.',
+    'C08': 'Tightness oracle computed from the usage rows in reservation order: fully booked days between release day and last work day; start/end timestamps equal midnight + 24h * booked share (solver, +-2us); WBS-order hand-out; removal of an unrelated task with balancing off (second calc in the same path).',
+    'C09': 'BackwardScheduler.calc: end <= deadline, predecessor end <= successor start for declared and inherited dependencies (time-stamp level), late packing and end-of-day encodings, all as solver queries over symbolic deadline time and quantities.',
+    'C14': 'Unschedulable inputs are not pruned: hierarchy-closed cycles, outside predecessors with/without dates, fixed ends in the future, never-available and exhausted calendars, unnamed tasks, tasks without resource; outcome must be a schedule or exactly RuntimeError (RecursionError counted as crash), and the four enumerated causes must raise.',
+}
+
 NOT_YET = {
 }
+
+
+for _k, _v in SCHED_TEXT.items():
+    CHECKS[_k] = ('other', _v, '6 ' + _k, SCHED_NOTE)
 
 
 def main():
